@@ -2,7 +2,7 @@
 From Coq Require Import List Arith.
 Require Import JV.Model.ParallelCore JV.Proofs.ParallelInv1 JV.Proofs.ParallelTrk JV.Proofs.ParallelInv4 JV.Proofs.ParallelInv5
                JV.Proofs.ParallelInv6 JV.Proofs.ParallelMisc.
-Require Import JV.Model.ParallelSync JV.Proofs.SyncFrame JV.Proofs.SyncThm JV.Proofs.SyncProgress.
+Require Import JV.Model.ParallelSync JV.Proofs.SyncFrame JV.Proofs.SyncThm JV.Proofs.SyncProgress JV.Proofs.ParallelProgress.
 Import ListNotations.
 
 (* a completion callback of an earlier call changes nothing but the in-flight bookkeeping *)
@@ -97,3 +97,29 @@ Theorem C04_sync_waiting_means_callback_due : forall s, sreach s -> blk s = None
   aborting (base s) = false /\ exists t, is_cur (base s) t = true /\ In t (inflight (base s)).
 Proof. exact sync_waiting_means_callback_due. Qed.
 Print Assumptions C04_sync_waiting_means_callback_due.
+
+(* ---- termination variant (M1): mu s = 3 * (input not yet submitted) + 2 * |in-flight batches| + |callbacks between
+   their two sections|.  (a) No event other than a new call increases it, whatever the environment and the
+   consumer do; (b) the completion of any in-flight batch decreases it strictly; (c) a consumer that waits always
+   has such a completion enabled, for a batch of the current call.  Hence a consumer waits for at most mu s
+   completion events: the call terminates unless the backend withholds a completion for ever. ---- *)
+Theorem C04_variant_never_increases : forall s e, reach s -> wf_ev e -> is_call e = false ->
+  mu (fst (step true s e)) <= mu s.
+Proof. exact mu_monotone. Qed.
+Print Assumptions C04_variant_never_increases.
+
+Theorem C04_completion_decreases_variant : forall s t o b, reach s -> 1 <= b -> t < length (trk s) ->
+  (In t (inflight s) -> mu (fst (step true s (ECbStart t o))) < mu s) /\
+  (In t (cbmid s) -> mu (fst (step true s (ECbFinish t b))) < mu s).
+Proof.
+  intros s t o b Hr Hb Hlt. split; intros Hin;
+    [apply mu_completion_start | apply mu_completion_finish]; assumption.
+Qed.
+Print Assumptions C04_completion_decreases_variant.
+
+Theorem C04_waiting_has_decreasing_completion : forall s, reach s -> want s = true -> phase s = Retrieving ->
+  snd (try_advance s) = None ->
+  exists e, wf_ev e /\ is_call e = false /\ mu (fst (step true s e)) < mu s /\
+            (exists t, is_cur s t = true /\ (e = ECbStart t None \/ e = ECbFinish t 1)).
+Proof. exact waiting_has_decreasing_completion. Qed.
+Print Assumptions C04_waiting_has_decreasing_completion.
